@@ -158,6 +158,23 @@ example : ∃ out, serializeObjs ex1_re = .ok out ∧
   c03_all_with_fixpoint "EthernetII" ex1_bytes ex1_re (by decide) rfl
     ⟨trivial, (by show (_ : Nat) < 65536; decide), trivial, trivial, trivial⟩ (fun o t h => by cases h)
 
+/-! #### 10. API-built stacks: `built`-side theorem (`chain_fixpoint_named`) and its exclusion -/
+
+/-- `Dot1Q(5, append_pad = true) / RawPDU(01 02 03)` entered as Dot1Q: the Dot1Q pads to 50 bytes; nothing cuts the padding
+    off, so it becomes payload of the re-parsed packet, whose Dot1Q (which no longer pads) writes the same 50 bytes:
+    `PadKeptAll` holds although `append_padding_` is set -/
+def exQpad : List AnyObj := [.l2 (.dot1q (L2.Dot1Q.create 5 true)), .raw [1, 2, 3]]
+theorem exQpad_stackable : StackableAll exQpad :=
+  ⟨⟨L2.dot1q_create_wf 5 true, trivial, trivial, (by decide : Tags.classOfEther 0 = none)⟩, rfl⟩
+example : PadKeptAll exQpad := ⟨fun _ => rfl, trivial⟩
+example : ∃ y, serializeObjs exQpad = .ok y ∧ y.length = 50 ∧
+    ∃ q, parseChain (y.length + 2) "Dot1Q" y = .ok q ∧ serializeObjs q = .ok y := by
+  refine ⟨_, rfl, rfl, ?_⟩
+  exact chain_fixpoint_named "Dot1Q" _ _ (.inl rfl) exQpad_stackable ⟨fun _ => rfl, trivial⟩ (by decide) _ rfl
+/-- the same Dot1Q above an IP datagram is in the excluded region: the IP total length cuts the padding off -/
+example : ¬ PadKeptAll [.l2 (.dot1q (L2.Dot1Q.create 5 true)), .ip (.ip exIp), .tr (.udp exUdp), .raw [1, 2, 3]] :=
+  fun h => absurd (h.1 rfl) (by decide)
+
 end FixExamples
 
 end Tins.Wire.ChainAll
